@@ -7,15 +7,19 @@
 package main
 
 import (
+	"context"
 	"flag"
 	"fmt"
 	"hash/fnv"
+	"io"
 	"math/rand"
 	"net"
 	"os"
 	"runtime"
 	"strings"
 	"sync"
+	"sync/atomic"
+	"syscall"
 	"time"
 
 	"github.com/vmware/go-ipfix/pkg/entities"
@@ -64,6 +68,10 @@ func exporterGoroutines() int {
 	return c
 }
 
+// manyTemplates makes the refresh burst long (400 templates before the first tick); the peer signals the first
+// retransmitted template it sees, the application then sends three new templates inside that burst and none afterwards.
+var manyTemplates bool
+
 func udpRun(w *vt.Writer, r *rand.Rand, pool []*entities.InfoElement, dur time.Duration, dist map[uint64]bool) int {
 	peer, err := net.ListenUDP("udp", &net.UDPAddr{IP: net.IPv4(127, 0, 0, 1)})
 	if err != nil {
@@ -78,14 +86,25 @@ func udpRun(w *vt.Writer, r *rand.Rand, pool []*entities.InfoElement, dur time.D
 	w.Reset(vt.Ev{"proto": "udp", "dom": vt.Limbs(dom)})
 	marker := []byte("VERIF-MARK")
 	peerDone := make(chan struct{})
+	burst := make(chan struct{}) // closed by the peer when it sees the first retransmitted template
 	go func() { // peer: log every datagram
 		defer close(peerDone)
 		buf := make([]byte, 65536)
+		seen := map[int]bool{}
+		burstSeen := false
 		for {
 			peer.SetReadDeadline(time.Now().Add(dur + 5*time.Second))
 			n, _, err := peer.ReadFromUDP(buf)
 			if err != nil {
 				return
+			}
+			if !burstSeen && n >= 22 && buf[16] == 0 && buf[17] == 2 {
+				tid := int(buf[20])<<8 | int(buf[21])
+				if seen[tid] {
+					burstSeen = true
+					close(burst)
+				}
+				seen[tid] = true
 			}
 			if string(buf[:n]) == string(marker) {
 				w.Emit(vt.Ev{"e": "Mark"})
@@ -111,14 +130,35 @@ func udpRun(w *vt.Writer, r *rand.Rand, pool []*entities.InfoElement, dur time.D
 		rr := rand.New(rand.NewSource(seedApp))
 		tmpls := map[int][]*entities.InfoElement{}
 		tids := []int{}
+		late := -1 // manyTemplates: number of new templates still to send inside the first refresh burst
 		for {
 			select {
 			case <-stopApp:
 				return
 			default:
 			}
+			if manyTemplates && late < 0 {
+				select {
+				case <-burst:
+					late = 3
+				default:
+				}
+			}
 			var d sets.Desc
-			if len(tids) == 0 || (len(tids) < 5 && rr.Intn(40) == 0) {
+			if manyTemplates && late > 0 {
+				// the refresher is in the middle of its first retransmission burst: new templates now,
+				// and none afterwards -- each must still be retransmitted at every later refresh
+				late--
+				tid := 256 + len(tids)
+				tmpls[tid] = sets.RandTemplate(rr, pool, 2)
+				tids = append(tids, tid)
+				d = sets.Tmpl(tid, tmpls[tid])
+			} else if manyTemplates && late < 0 && len(tids) < 400 {
+				tid := 256 + len(tids)
+				tmpls[tid] = sets.RandTemplate(rr, pool, 2)
+				tids = append(tids, tid)
+				d = sets.Tmpl(tid, tmpls[tid])
+			} else if len(tids) == 0 || (len(tids) < 5 && rr.Intn(40) == 0) {
 				tid := 256 + len(tids)
 				tmpls[tid] = sets.RandTemplate(rr, pool, 8)
 				tids = append(tids, tid)
@@ -141,6 +181,15 @@ func udpRun(w *vt.Writer, r *rand.Rand, pool []*entities.InfoElement, dur time.D
 			m0 := ms()
 			n, err := ep.SendSet(set)
 			w.Emit(vt.Ev{"e": "SendEnd", "ret": n, "err": err != nil, "ms0": m0, "ms": ms()})
+			if manyTemplates && late != 0 {
+				if len(tids) >= 400 && late < 0 { // wait for the burst, react at once
+					select {
+					case <-burst:
+					case <-time.After(time.Duration(rr.Intn(3000)) * time.Microsecond):
+					}
+				}
+				continue
+			}
 			time.Sleep(time.Duration(rr.Intn(3000)) * time.Microsecond)
 		}
 	}()
@@ -218,6 +267,113 @@ func udpPeerGone(w *vt.Writer, r *rand.Rand, pool []*entities.InfoElement) int {
 	}
 	waitOrHang(w, &wg, "CloseConnToCollector (udp, peer gone)")
 	send(sets.Data(r, 256, ies, 1, 20, 4000))
+	time.Sleep(20 * time.Millisecond)
+	w.Emit(vt.Ev{"e": "End", "leaked": exporterGoroutines(), "ms": ms()})
+	return evals
+}
+
+// tcpBackpressure: the collector is alive but does not read for a while: application writes block on
+// a full socket while connection checks keep running. Nothing may fail and the stream must stay intact.
+func tcpBackpressure(w *vt.Writer, r *rand.Rand, pool []*entities.InfoElement) int {
+	// a small receive buffer on the listening socket (inherited by the accepted one): the sender's
+	// socket fills after a few messages instead of a few megabytes
+	lc := net.ListenConfig{Control: func(network, address string, c syscall.RawConn) error {
+		return c.Control(func(fd uintptr) { syscall.SetsockoptInt(int(fd), syscall.SOL_SOCKET, syscall.SO_RCVBUF, 16<<10) })
+	}}
+	ln, err := lc.Listen(context.Background(), "tcp", "127.0.0.1:0")
+	if err != nil {
+		panic(err)
+	}
+	defer ln.Close()
+	dom := r.Uint32()
+	ep, err := exporter.InitExportingProcess(exporter.ExporterInput{CollectorAddress: ln.Addr().String(), CollectorProtocol: "tcp", ObservationDomainID: dom, CheckConnInterval: 50 * time.Millisecond})
+	if err != nil {
+		panic(err)
+	}
+	conn, err := ln.Accept()
+	if err != nil {
+		panic(err)
+	}
+	w.Reset(vt.Ev{"proto": "tcp", "dom": vt.Limbs(dom)})
+	evals := 0
+	var inflight atomic.Int64
+	u8, _ := registry.GetInfoElement("protocolIdentifier", 0)
+	str, _ := registry.GetInfoElement("interfaceName", 0)
+	ies := []*entities.InfoElement{u8, str}
+	send := func(d sets.Desc) bool {
+		evals++
+		set := d.Build()
+		w.Emit(vt.Ev{"e": "SendBegin", "set": d.JSON(), "ms": ms()})
+		m0 := ms()
+		inflight.Store(time.Now().UnixNano())
+		n, err := ep.SendSet(set)
+		inflight.Store(0)
+		w.Emit(vt.Ev{"e": "SendEnd", "ret": n, "err": err != nil, "ms0": m0, "ms": ms()})
+		return err == nil
+	}
+	stopRead := make(chan struct{})
+	readDone := make(chan struct{})
+	var reading atomic.Bool
+	go func() { // the peer: silent until one SendSet has been blocked for 400 ms (at most 10 s), then reads and logs every message of the stream
+		defer close(readDone)
+		for t0 := time.Now(); time.Since(t0) < 10*time.Second; time.Sleep(10 * time.Millisecond) {
+			if s := inflight.Load(); s != 0 && time.Now().UnixNano()-s > int64(400*time.Millisecond) {
+				break
+			}
+			select {
+			case <-stopRead:
+				return
+			default:
+			}
+		}
+		reading.Store(true)
+		hdr := make([]byte, 4)
+		for {
+			conn.SetReadDeadline(time.Now().Add(700 * time.Millisecond))
+			if _, err := io.ReadFull(conn, hdr); err != nil {
+				select {
+				case <-stopRead:
+					return
+				default:
+					continue
+				}
+			}
+			n := int(hdr[2])<<8 | int(hdr[3])
+			if n < 4 {
+				w.Emit(vt.Ev{"e": "Recv", "bytes": vt.B(hdr), "sec": int(time.Now().Unix())})
+				return
+			}
+			msg := make([]byte, n)
+			copy(msg, hdr)
+			conn.SetReadDeadline(time.Now().Add(5 * time.Second))
+			k, _ := io.ReadFull(conn, msg[4:])
+			w.Emit(vt.Ev{"e": "Recv", "bytes": vt.B(msg[:4+k]), "sec": int(time.Now().Unix())})
+		}
+	}()
+	send(sets.Tmpl(256, ies))
+	big := make([]int, 60000)
+	for i := range big {
+		big[i] = 97 + i%26
+	}
+	t0 := time.Now()
+	for !reading.Load() && time.Since(t0) < 10*time.Second { // a write blocks once the socket buffers are full
+		if !send(sets.Desc{Stype: "data", HdrID: 256, Recs: []sets.Rec{{Tid: 256, IEs: ies, Vals: [][]int{{7}, big}}}}) {
+			break
+		}
+	}
+	time.Sleep(300 * time.Millisecond)
+	close(stopRead)
+	<-readDone
+	var wg sync.WaitGroup
+	wg.Add(1)
+	go func() {
+		defer wg.Done()
+		w.Emit(vt.Ev{"e": "CloseBegin", "c": 0, "ms": ms()})
+		ep.CloseConnToCollector()
+		w.Emit(vt.Ev{"e": "CloseEnd", "c": 0, "ms": ms()})
+	}()
+	waitOrHang(w, &wg, "CloseConnToCollector (tcp, back-pressure)")
+	conn.Close()
 	time.Sleep(20 * time.Millisecond)
 	w.Emit(vt.Ev{"e": "End", "leaked": exporterGoroutines(), "ms": ms()})
 	return evals
@@ -312,6 +468,12 @@ func main() {
 	// UDP runs in parallel would share the logger; run them one after another
 	for i := 0; i < nudp; i++ {
 		evals += udpRun(w, r, pool, dur, dist)
+	}
+	manyTemplates = true
+	evals += udpRun(w, r, pool, 3300*time.Millisecond, dist)
+	manyTemplates = false
+	for i := 0; i < (ntcp+1)/2; i++ {
+		evals += tcpBackpressure(w, r, pool)
 	}
 	for i := 0; i < ntcp; i++ {
 		evals += tcpRun(w, r, pool)
